@@ -412,6 +412,23 @@ func genC16(rt *rapid.T, maxOps int) c16Case {
 		case "addTest", "addPost":
 			c.Ops = append(c.Ops, c16Op{Op: kind, Src: rapid.IntRange(0, nlive-1).Draw(rt, "src")})
 		}
+		// aliasing needs later additions to BOTH a derived schema and (one of) its operands: follow a derivation
+		// with such a burst half of the time
+		if last := c.Ops[len(c.Ops)-1]; (last.Op == "pick" || last.Op == "omit" || last.Op == "extend" || last.Op == "merge") && rapid.Bool().Draw(rt, "burst") {
+			derived := nlive - 1
+			operands := append([]int{last.Src}, last.Others...)
+			what := rapid.SampledFrom([]string{"addTest", "addPost"}).Draw(rt, "bwhat")
+			seq := []int{derived, rapid.SampledFrom(operands).Draw(rt, "bop")}
+			if rapid.Bool().Draw(rt, "bswap") {
+				seq[0], seq[1] = seq[1], seq[0]
+			}
+			if rapid.Bool().Draw(rt, "bthird") {
+				seq = append(seq, rapid.SampledFrom(append(operands, derived)).Draw(rt, "bop3"))
+			}
+			for _, idx := range seq {
+				c.Ops = append(c.Ops, c16Op{Op: what, Src: idx})
+			}
+		}
 	}
 	vals := map[string][]model.Val{
 		"a": {model.Str("axx"), model.Str("x"), model.Str("abcd"), model.Nil()},
